@@ -716,3 +716,256 @@ Section Main.
       + rewrite Hscan by lia. destruct (rlookup Er name); reflexivity.
   Qed.
 End Main.
+
+Section Main2.
+  Variable u : universe.
+  Variable dn : list str.
+  Hypothesis Hu : wfu u.
+  Notation FL := (impl_flatten u dn).
+  Notation flat_to := (flat_to u dn).
+  Notation flats := (flats u dn).
+  Notation NB := (node_body (tpl_of u) (fun _ => false) (fun _ _ => []) dn).
+
+  Lemma branch_some n e st :
+    flat_to n e st ->
+    exists b0, forall b c, (b0 <= b)%nat ->
+      branch (FL b c) e (Some n) = Ok [PMaybeNL; PS (trim st); PMark] /\ okstr (trim st) = true.
+  Proof.
+    intros [b0 H]. exists b0. intros b c Hb. destruct (H b c Hb) as (qs & H1 & H2 & H3).
+    assert (Hok : okstr st = true) by (rewrite <- H2; apply okp_join; exact H3).
+    unfold branch. rewrite H1. rewrite join_nl_ok by exact H3. rewrite H2, strip_trim by exact Hok.
+    split; [reflexivity|]. rewrite <- strip_trim by exact Hok. apply strip_by_ok. exact Hok.
+  Qed.
+
+  Lemma pjoin_single t : pjoin [PS t] = t.
+  Proof. cbn. apply app_nil_r. Qed.
+
+  Lemma pjoin_wrap qs : pjoin (PMark :: PMaybeNL :: qs ++ [PMark]) = pjoin qs.
+  Proof. change (pjoin (PMark :: PMaybeNL :: qs ++ [PMark])) with (pjoin (qs ++ [PMark])). rewrite pjoin_app. apply app_nil_r. Qed.
+
+  Lemma okp3 t : okstr t = true -> Forall okp [PMaybeNL; PS t; PMark].
+  Proof. intros H. repeat constructor. exact H. Qed.
+
+  Lemma pjoin3 t : pjoin [PMaybeNL; PS t; PMark] = t.
+  Proof. cbn. apply app_nil_r. Qed.
+
+  Lemma truthy_false b : wfl b = true -> truthy (compile_body b) = false -> b = [].
+  Proof.
+    intros Hw Ht. unfold wfl in Hw. apply andb_true_iff in Hw as [Hn Hf].
+    unfold compile_body, mkseq in Ht. rewrite merge_compile in Ht by exact Hn.
+    destruct b as [|x [|y r]]; [reflexivity| |cbn in Ht; discriminate].
+    cbn [map] in Ht. cbn [forallb] in Hf. apply andb_true_iff in Hf as [Hx _].
+    destruct x as [s|nm [d|]|nm args|c t e|a bb t e|sc cs d]; cbn in Ht; try discriminate.
+    destruct s; [cbn in Hx; discriminate|discriminate].
+  Qed.
+
+  Lemma flats_of_evals n (IHn : forall E e p s, env_rel u dn E e -> env_ok E -> wf p = true -> eval n u E p = Some s -> flat_to (compile p) e s) :
+    body_IH u dn n.
+  Proof.
+    intros E e l s H1 H2 H3 H4. unfold evals in H4. apply ocat_forall2 in H4 as (ss & H5 & H6).
+    exists ss. split; [|exact H6]. clear H6. unfold wfl in H3. apply andb_true_iff in H3 as [_ H3].
+    revert H3. induction H5 as [|x sx l ss Hx Hl IH]; intros H3; [constructor|].
+    cbn [forallb] in H3. apply andb_true_iff in H3 as [Hwx Hwl]. cbn [map]. constructor.
+    - apply (IHn E e x sx H1 H2 Hwx Hx).
+    - apply IH. exact Hwl.
+  Qed.
+
+  Lemma wfo_spec (o : option (list ast)) :
+    match o with Some l => no_adj l && forallb wf l | None => true end = wfo o.
+  Proof. destruct o; reflexivity. Qed.
+
+  Lemma main n : forall E e p s,
+    env_rel u dn E e -> env_ok E -> wf p = true -> eval n u E p = Some s -> flat_to (compile p) e s.
+  Proof.
+    induction n as [|n IHn]; intros E e p s HE HEok Hwf Hev; [discriminate|].
+    pose proof (flats_of_evals n IHn) as IHb.
+    rewrite eval_S in Hev.
+    destruct p as [t|nm d|nm args|c t el|a b2 t el|sc cs d].
+    - (* Text *)
+      inversion Hev; subst. cbn [wf] in Hwf. apply andb_true_iff in Hwf as [Hok _]. apply flat_to_str. exact Hok.
+    - (* Param *)
+      cbn [wf] in Hwf. rewrite wfo_spec in Hwf. apply andb_true_iff in Hwf as [Hnm Hd].
+      destruct (name_okb_spec nm Hnm) as (Hn1 & Hn2 & Hn3).
+      destruct (HE nm) as [bE HgetE].
+      assert (Hdef : forall dl, d = Some dl -> rlookup E nm = None -> flat_to (mkseq (map compile dl)) e s).
+      { intros dl -> Hl. rewrite Hl in Hev. cbn [wfo] in Hd. apply (body_mk u dn n IHb E e dl s HE HEok Hd Hev). }
+      assert (Hgoal : forall rest, (match d with Some dl => rest = [mkseq (map compile dl)] | None => rest = [] end) ->
+                flat_to (NVar (NStr nm :: rest)) e s).
+      { intros rest Hrest. apply flat_to_step; [reflexivity|].
+        destruct (rlookup E nm) as [v|] eqn:Hl.
+        - inversion Hev; subst v. exists bE. intros b c Hb. exists [PS s].
+          cbn [node_body]. rewrite (FL_str u dn b (S c) (NStr nm) e nm eq_refl).
+          rewrite pjoin_single, Hn2, Hn3, HgetE by lia.
+          split; [reflexivity|]. split; [apply pjoin_single|]. constructor; [|constructor]. apply (HEok nm s Hl).
+        - destruct d as [dl|].
+          + subst rest. destruct (Hdef dl eq_refl eq_refl) as [bd Hd'].
+            exists (Nat.max bE bd). intros b c Hb. destruct (Hd' b (S c) ltac:(lia)) as (ps & P1 & P2 & P3).
+            exists ps. cbn [node_body]. rewrite (FL_str u dn b (S c) (NStr nm) e nm eq_refl).
+            rewrite pjoin_single, Hn2, Hn3, HgetE by lia.
+            split; [exact P1|]. split; assumption.
+          + subst rest. inversion Hev; subst s. exists bE. intros b c Hb. exists [PS (open3 ++ nm ++ close3)].
+            cbn [node_body]. rewrite (FL_str u dn b (S c) (NStr nm) e nm eq_refl).
+            rewrite pjoin_single, Hn2, Hn3, HgetE by lia.
+            split; [reflexivity|]. split; [apply pjoin_single|]. constructor; [|constructor].
+            unfold okp. cbn [piece_str]. rewrite !okstr_app, Hn1. reflexivity. }
+      destruct d as [dl|]; cbn [compile]; apply Hgoal; reflexivity.
+    - (* Call *)
+      cbn [wf] in Hwf. apply andb_true_iff in Hwf as [Hwf Hnd]. apply andb_true_iff in Hwf as [Hwf Hargs].
+      apply andb_true_iff in Hwf as [Hnm Hne].
+      destruct (name_okb_spec nm Hnm) as (Hn1 & Hn2 & Hn3).
+      destruct (ulookup u nm) as [body|] eqn:Hul; [|discriminate].
+      destruct (bind_args (evals n u E) args 1%N) as [E'|] eqn:Hb; [|discriminate].
+      destruct (scan_ok u dn n IHb E e HE HEok args 1%N E' Hargs Hnd Hb) as (_ & HEok' & Hscan).
+      set (e' := EArgs (map carg args) e).
+      assert (HE' : env_rel u dn E' e') by (intros name; apply Hscan).
+      pose proof (Hu nm body Hul) as Hwb.
+      rewrite compile_call. apply flat_to_step; [reflexivity|].
+      assert (Htpl : tpl_of u nm = Some (compile_body body)).
+      { unfold tpl_of. destruct nm; [discriminate|]. rewrite Hul. reflexivity. }
+      destruct (truthy (compile_body body)) eqn:Htr.
+      + destruct (body_mk u dn n IHb E' e' body s HE' HEok' Hwb Hev) as ([bb Hbody] & _ & _).
+        exists bb. intros b c Hbb. destruct (Hbody b (S c) Hbb) as (qs & Q1 & Q2 & Q3).
+        exists (PMark :: PMaybeNL :: qs ++ [PMark]).
+        cbn [node_body]. rewrite (FL_str u dn b (S c) (NStr nm) e nm eq_refl).
+        rewrite pjoin_single, Hn2, Hn3, Htpl, Htr.
+        fold e'. unfold compile_body in Q1. unfold compile_body. rewrite Q1.
+        split; [reflexivity|]. split.
+        * rewrite pjoin_wrap. exact Q2.
+        * constructor; [apply okp_mark|]. constructor; [apply okp_mnl|]. apply Forall_app. split; [exact Q3|].
+          constructor; [apply okp_mark|constructor].
+      + pose proof (truthy_false body Hwb Htr) as ->. cbn in Hev. inversion Hev; subst s.
+        exists 0%nat. intros b c _. exists [].
+        cbn [node_body]. rewrite (FL_str u dn b (S c) (NStr nm) e nm eq_refl).
+        rewrite pjoin_single, Hn2, Hn3, Htpl, Htr.
+        split; [reflexivity|]. split; [reflexivity|constructor].
+    - (* If *)
+      cbn [wf] in Hwf. rewrite wfo_spec in Hwf. apply andb_true_iff in Hwf as [Hwf Hwe]. apply andb_true_iff in Hwf as [Hwc Hwt].
+      destruct (evals n u E c) as [cs|] eqn:Ec; [|discriminate].
+      destruct (IHb E e c cs HE HEok Hwc Ec) as (ssc & Hfc & Hcc).
+      destruct (body_mk u dn n IHb E e c cs HE HEok Hwc Ec) as (_ & _ & Hcsok).
+      assert (Hnc : no_adj c = true) by (unfold wfl in Hwc; apply andb_true_iff in Hwc; apply Hwc).
+      destruct (first_of_flats u dn c e ssc Hfc) as (ss' & Hf' & Hc').
+      destruct (cond_flat u dn (first_of c) e ss' (merge_first_of c Hnc) (first_of_not_seq c) Hf') as (s' & [bc Hcond] & Hs').
+      rewrite Hc', Hcc in Hs'.
+      rewrite compile_if. apply flat_to_step; [reflexivity|].
+      assert (Hcondv : forall b c0, (bc <= b)%nat -> exists ps, FL b c0 (strip_ws_node (mkseq (first_of c))) e = Ok ps /\
+                 strip_ebad (strip (pjoin ps)) = trim cs).
+      { intros b c0 Hb. destruct (Hcond b c0 Hb) as (ps & P1 & P2 & P3). exists ps. split; [exact P1|].
+        rewrite P2, Hs'. rewrite strip_ebad_id by (apply strip_by_ok; exact Hcsok). apply strip_trim. exact Hcsok. }
+      destruct (trim cs) as [|ch tl] eqn:Etr.
+      + (* false: else branch *)
+        destruct el as [el|].
+        * destruct (evals n u E el) as [se|] eqn:Ee; [|discriminate]. cbn [otrim] in Hev. inversion Hev; subst s.
+          cbn [wfo] in Hwe.
+          destruct (body_mk u dn n IHb E e el se HE HEok Hwe Ee) as (Hme & _ & _).
+          destruct (branch_some _ _ _ Hme) as [bb Hbr].
+          exists (Nat.max bc bb). intros b c0 Hb. exists [PMaybeNL; PS (trim se); PMark].
+          destruct (Hcondv b (S c0) ltac:(lia)) as (ps & P1 & P2).
+          destruct (Hbr b (S c0) ltac:(lia)) as [B1 B2].
+          cbn [node_body]. rewrite P1, P2. cbn [nth_error]. rewrite B1.
+          split; [reflexivity|]. split; [apply pjoin3|apply okp3; exact B2].
+        * inversion Hev; subst s. exists bc. intros b c0 Hb. exists [PMaybeNL; PS []; PMark].
+          destruct (Hcondv b (S c0) ltac:(lia)) as (ps & P1 & P2).
+          cbn [node_body]. rewrite P1, P2. cbn [nth_error branch].
+          split; [reflexivity|]. split; [reflexivity|apply okp3; reflexivity].
+      + destruct (evals n u E t) as [st|] eqn:Et; [|discriminate]. cbn [otrim] in Hev. inversion Hev; subst s.
+        destruct (body_mk u dn n IHb E e t st HE HEok Hwt Et) as (Hmt & _ & _).
+        destruct (branch_some _ _ _ Hmt) as [bb Hbr].
+        exists (Nat.max bc bb). intros b c0 Hb. exists [PMaybeNL; PS (trim st); PMark].
+        destruct (Hcondv b (S c0) ltac:(lia)) as (ps & P1 & P2).
+        destruct (Hbr b (S c0) ltac:(lia)) as [B1 B2].
+        cbn [node_body]. rewrite P1, P2. cbn [nth_error]. rewrite B1.
+        split; [reflexivity|]. split; [apply pjoin3|apply okp3; exact B2].
+    - (* IfEq *)
+      cbn [wf] in Hwf. rewrite wfo_spec in Hwf. apply andb_true_iff in Hwf as [Hwf Hwe]. apply andb_true_iff in Hwf as [Hwf Hwt].
+      apply andb_true_iff in Hwf as [Hwa Hwb].
+      destruct (evals n u E a) as [sa|] eqn:Ea; [|discriminate].
+      destruct (evals n u E b2) as [sb|] eqn:Eb; [|discriminate].
+      destruct (IHb E e a sa HE HEok Hwa Ea) as (ssa & Hfa & Hca).
+      destruct (body_mk u dn n IHb E e a sa HE HEok Hwa Ea) as (_ & _ & Hsaok).
+      destruct (body_mk u dn n IHb E e b2 sb HE HEok Hwb Eb) as ([bbv Hmb] & _ & Hsbok).
+      assert (Hna : no_adj a = true) by (unfold wfl in Hwa; apply andb_true_iff in Hwa; apply Hwa).
+      destruct (first_of_flats u dn a e ssa Hfa) as (ss' & Hf' & Hc').
+      pose proof (flat_to_mkseq u dn (first_of a) e ss' (merge_first_of a Hna) Hf') as [ba Hma].
+      rewrite Hc', Hca in Hma.
+      rewrite compile_ifeq. apply flat_to_step; [reflexivity|].
+      assert (Hhead : forall b c0, (Nat.max ba bbv <= b)%nat -> exists ps qs,
+                 FL b c0 (mkseq (first_of a)) e = Ok ps /\ FL b c0 (mkseq (map compile b2)) e = Ok qs /\
+                 maybe_numeric_compare (strip (pjoin ps)) (strip (pjoin qs)) = num_aware_eq (trim sa) (trim sb)).
+      { intros b0 c0 Hb. destruct (Hma b0 c0 ltac:(lia)) as (ps & P1 & P2 & _).
+        destruct (Hmb b0 c0 ltac:(lia)) as (qs & Q1 & Q2 & _). exists ps, qs. split; [exact P1|]. split; [exact Q1|].
+        rewrite P2, Q2, num_aware_eq_impl, !strip_trim by assumption. reflexivity. }
+      destruct (num_aware_eq (trim sa) (trim sb)) eqn:Ecmp.
+      + destruct (evals n u E t) as [st|] eqn:Et; [|discriminate]. cbn [otrim] in Hev. inversion Hev; subst s.
+        destruct (body_mk u dn n IHb E e t st HE HEok Hwt Et) as (Hmt & _ & _).
+        destruct (branch_some _ _ _ Hmt) as [bb Hbr].
+        exists (Nat.max (Nat.max ba bbv) bb). intros b0 c0 Hb. exists [PMaybeNL; PS (trim st); PMark].
+        destruct (Hhead b0 (S c0) ltac:(lia)) as (ps & qs & P1 & Q1 & Hc).
+        destruct (Hbr b0 (S c0) ltac:(lia)) as [B1 B2].
+        cbn [node_body]. rewrite P1, Q1, Hc. cbn [nth_error]. rewrite B1.
+        split; [reflexivity|]. split; [apply pjoin3|apply okp3; exact B2].
+      + destruct el as [el|].
+        * destruct (evals n u E el) as [se|] eqn:Ee; [|discriminate]. cbn [otrim] in Hev. inversion Hev; subst s.
+          cbn [wfo] in Hwe.
+          destruct (body_mk u dn n IHb E e el se HE HEok Hwe Ee) as (Hme & _ & _).
+          destruct (branch_some _ _ _ Hme) as [bb Hbr].
+          exists (Nat.max (Nat.max ba bbv) bb). intros b0 c0 Hb. exists [PMaybeNL; PS (trim se); PMark].
+          destruct (Hhead b0 (S c0) ltac:(lia)) as (ps & qs & P1 & Q1 & Hc).
+          destruct (Hbr b0 (S c0) ltac:(lia)) as [B1 B2].
+          cbn [node_body]. rewrite P1, Q1, Hc. cbn [nth_error]. rewrite B1.
+          split; [reflexivity|]. split; [apply pjoin3|apply okp3; exact B2].
+        * inversion Hev; subst s. exists (Nat.max ba bbv). intros b0 c0 Hb. exists [PMaybeNL; PS []; PMark].
+          destruct (Hhead b0 (S c0) ltac:(lia)) as (ps & qs & P1 & Q1 & Hc).
+          cbn [node_body]. rewrite P1, Q1, Hc. cbn [nth_error branch].
+          split; [reflexivity|]. split; [reflexivity|apply okp3; reflexivity].
+    - (* Switch: outside the proved fragment *)
+      cbn [wf] in Hwf. discriminate.
+  Qed.
+End Main2.
+
+(* ------------------------------------------------------------------ top level *)
+
+Lemma env_rel_top u dn : env_rel u dn [] ETop.
+Proof. intros name. exists 0%nat. intros b c _. reflexivity. Qed.
+
+Lemma env_ok_nil : env_ok [].
+Proof. intros name v H. discriminate. Qed.
+
+Lemma eval_correct u dn :
+  wfu u -> forall n page s, wfl page = true -> evals n u [] page = Some s ->
+  exists L0, forall limit, (L0 <= limit)%nat -> impl_expand u dn limit page = Ok s.
+Proof.
+  intros Hu n page s Hw Hev.
+  destruct (body_mk u dn n (flats_of_evals u dn n (main u dn Hu n)) [] ETop page s
+              (env_rel_top u dn) env_ok_nil Hw Hev) as ([b0 H] & _ & _).
+  exists b0. intros limit Hl. unfold impl_expand, expand.
+  destruct (H (S limit) 0%nat ltac:(lia)) as (ps & H1 & H2 & H3).
+  unfold impl_flatten, compile_body in H1. unfold compile_body. rewrite H1.
+  rewrite inl_ok by (constructor; [reflexivity|exact H3]). cbn [tl]. rewrite H2. reflexivity.
+Qed.
+
+(* text without template syntax is returned unchanged: for EVERY string, by the evaluator model and by the reference *)
+Lemma plain_text_identity u dn limit s : impl_expand u dn limit [Text s] = Ok s.
+Proof.
+  unfold impl_expand, expand, compile_body. cbn [map compile mkseq].
+  rewrite (flatten_str _ _ _ _ (S limit) 0 (NStr s) ETop s eq_refl).
+  cbn [inl piece_str tl]. cbn [pjoin map piece_str concat]. rewrite app_nil_r. reflexivity.
+Qed.
+
+Lemma plain_text_reference n u E s : eval (S n) u E (Text s) = Some s.
+Proof. reflexivity. Qed.
+
+(* non-vacuity: t1 = "{{{1}}}-{{{x}}}{{{y}}}", page = "{{t1| a |x= b }}{{#if: |y| n }}{{#ifeq:1.0|1| e }}" *)
+Definition ex_u : universe :=
+  [([116;49]%N, [Param [49%N] None; Text [45%N]; Param [120%N] None; Param [121%N] None])].
+Definition ex_page : list ast :=
+  [Call [116;49]%N [(None, [Text [32;97;32]%N]); (Some [120%N], [Text [32;98;32]%N])];
+   If [Text [32%N]] [Text [121%N]] (Some [Text [32;110;32]%N]);
+   IfEq [Text [49;46;48]%N] [Text [49%N]] [Text [32;101;32]%N] None].
+Definition ex_out : str := [32;97;32;45;98;123;123;123;121;125;125;125;110;101]%N.   (* " a -b{{{y}}}ne" *)
+
+Lemma example_program :
+  wfl ex_page = true /\ wfl (snd (hd ([], []) ex_u)) = true /\
+  evals 10 ex_u [] ex_page = Some ex_out /\
+  impl_expand ex_u [default_key] 100 ex_page = Ok ex_out.
+Proof. vm_compute. repeat split. Qed.
